@@ -162,53 +162,24 @@ def check_blank(ctx, out):
             elif callee_matches(t, r"<impl str>::(replace|trim_start_matches|trim_matches|strip_prefix|trim_start|trim)$") and "{closure" in b.id:
                 out.viol("C03.blank", "C03.blank|%s|%s" % (b.id, callee_name(t).split("::")[-1]), ctx.where(b, t["span"]),
                          "a comment visitor uses `%s`, which changes the text's length: tag offsets would no longer map to source positions" % callee_name(t).split("::")[-1])
-    # (2) the hand-written normalisers: same lengths searched, blanked and skipped
-    norms = []
+    # (2) the hand-written normalisers: on every path that returns the rewritten text, the pieces pushed
+    # add up to the length of the input text - decided symbolically (engine/lensym.py)
+    from engine import lensym
     for b in ctx.reachable_bodies():
         if "language_parsers" not in b.id or b.promoted is not None:
             continue
         names = [callee_name(t).split("::")[-1] for bi, t in b.calls()]
-        if "push_str" in names and ("find" in names or "rfind" in names):
-            norms.append(b)
-    for b in norms:
-        E = ctx.expr(b)
-        searched = []
-        blanks = []
-        offsets = []
-        for bi, t in b.calls():
-            nm = callee_name(t).split("::")[-1]
-            if nm in ("find", "rfind") and len(t["args"]) > 1:
-                v = util.const_val(ctx, b, t["args"][1])
-                if isinstance(v, str):
-                    searched.append(len(v.encode()))
-            if nm == "starts_with" and len(t["args"]) > 1:
-                v = util.const_val(ctx, b, t["args"][1])
-                if isinstance(v, str) and len(v) == 1:
-                    searched.append(1)
-            if nm == "push_str" and len(t["args"]) > 1:
-                v = util.const_val(ctx, b, t["args"][1])
-                if isinstance(v, str) and v and set(v) <= {" "}:
-                    blanks.append(len(v))
-            if nm == "push" and len(t["args"]) > 1:
-                v = util.const_val(ctx, b, t["args"][1])
-                if v == " ":
-                    blanks.append(1)
-        for bi, j, s in b.assigns():
-            rv = s["rv"]
-            if rv["k"] == "bin" and rv["op"].startswith("Add"):
-                c = util.const_of(ctx, rv["b"])
-                if isinstance(c, int) and 0 < c < 8:
-                    offsets.append(c)
-        key = "%s" % b.id
-        need = sorted(set(searched))
-        okb = all(l in blanks for l in need)
-        oko = all(l in offsets for l in need)
-        if need and okb and oko:
+        if "push_str" not in names:
+            continue
+        v = ctx.inl(b, tag="all")
+        rep = lensym.normaliser_report(ctx, v)
+        bad = [m for ok, m in rep if not ok]
+        for i, m in enumerate(sorted(set(bad))):
+            out.viol("C03.blank", "C03.blank|%s|length|%d" % (b.id, i), ctx.where(b),
+                     "comment normaliser `%s` is not length-preserving: %s" % (b.name if b.kind != "Closure" else b.id.split("::")[-2] + " visitor", m))
+        if rep and not bad:
             n += 1
-        else:
-            out.viol("C03.blank", "C03.blank|%s|normaliser" % key, ctx.where(b),
-                     "normaliser searches delimiters of lengths %s, pushes blanks of lengths %s and skips by %s: every searched delimiter length needs a blank and a skip of the same length (length-preserving blanking)" % (sorted(searched), sorted(blanks), sorted(offsets)))
-    out.inst("C03.blank", n, 15, note="replacen sites + hand-written normalisers (C-style, XML-style, Markdown)")
+    out.inst("C03.blank", n, 6, note="replacen sites (same-length single replacement) + hand-written normalisers (symbolic length accounting on every returning path)")
 
 
 def check_content(ctx, out):
@@ -249,19 +220,21 @@ def check_content(ctx, out):
 def check_rebase(ctx, out, rule="C03.rebase"):
     n = 0
     found = False
-    for b in ctx.reachable_bodies():
-        if "language_parsers::markdown" not in b.id or b.promoted is not None:
-            continue
+    md = [b for b in ctx.reachable_bodies() if "language_parsers::markdown" in b.id and b.promoted is None]
+    called = {(t.get("res") or "") for b in md for _, t in b.calls()}
+    for b0 in md:
+        if b0.id in called:
+            continue        # helpers are read through their callers (inlined view)
+        b = ctx.inl(b0, tag="all")
         writes = {}
         for bi, j, s in b.assigns():
             lhs = s["lhs"]
             fields = tuple(e["f"] for e in lhs["p"] if isinstance(e, dict) and "f" in e)
-            if len(fields) == 2 and fields[-1] in ("line", "character") and fields[0] in ("start", "end"):
-                # written through `let r = &mut comment.position_range;`
-                whole = [s2 for _, _, s2 in b.assigns() if s2["lhs"]["l"] == lhs["l"] and not s2["lhs"]["p"]]
-                if len(whole) == 1 and whole[0]["rv"]["k"] == "ref":
-                    bf = tuple(e["f"] for e in whole[0]["rv"]["place"]["p"] if isinstance(e, dict) and "f" in e)
-                    fields = bf + fields
+            if fields and fields[-1] in ("line", "character") and "position_range" not in fields and lhs["p"] and lhs["p"][0] == "deref":
+                # written through a reference (`let r = &mut comment.position_range;`, a `&mut Position`
+                # parameter of an inlined helper): name the storage the reference designates
+                root, bf = util.base_path(b, {"l": lhs["l"], "p": []})
+                fields = tuple(bf) + fields
             if len(fields) >= 3 and fields[-3] == "position_range" and fields[-1] in ("line", "character"):
                 labs = ctx.prov.resolve_upvars(b, ctx.prov.read_operand(b, s["rv"]["op"])) if s["rv"]["k"] == "use" else set()
                 writes[(fields[-2], fields[-1])] = (bi, j, s, labs)
@@ -289,6 +262,19 @@ def check_rebase(ctx, out, rule="C03.rebase"):
             gok = False
             for br, vals, e in gs:
                 txt = render(e, 400)
+                if e[0] == "bin" and e[1] == "Eq" and ("position_range.%s.line" % pos) not in txt:
+                    # the tested value is read through a reference: name the storage it designates
+                    sp = util.op_place(b.blocks[br]["term"]["op"])
+                    sd = b.single_def(sp["l"]) if sp and not sp["p"] else None
+                    if sd and sd[0] == "stmt" and sd[3]["rv"]["k"] == "bin":
+                        for side in ("a", "b"):
+                            ap = util.op_place(sd[3]["rv"][side])
+                            ad = b.single_def(ap["l"]) if ap and not ap["p"] else None
+                            if ad and ad[0] == "stmt" and ad[3]["rv"]["k"] == "use" and util.op_place(ad[3]["rv"]["op"]):
+                                rp = util.op_place(ad[3]["rv"]["op"])
+                                own = tuple(x["f"] for x in rp["p"] if isinstance(x, dict) and "f" in x)
+                                root, bf = util.base_path(b, {"l": rp["l"], "p": []})
+                                txt = txt + " " + ".".join(tuple(bf) + own)
                 if e[0] == "bin" and e[1] == "Eq" and ("position_range.%s.line" % pos) in txt and 0 not in vals:
                     c = [x[1] for x in walk(e) if x[0] == "const"]
                     if c == [1]:
